@@ -70,7 +70,7 @@ for _nt, _C in R.PIN_NODE.items():
 REQUIRED = (['pin-diff-evaluated', 'pin-cells-compared', 'validate-calls', 'agree-after-reload:accept', 'agree-after-reload:reject', 'agree:accept', 'agree:reject', 'site-recorded-checked',
              'guardrail:ctor:refused-as-pinned', 'guardrail:ctor:allowed-as-pinned', 'guardrail:connect:allowed-as-pinned',
              'guardrail:connect:pinned-refusal-attempted',
-             'cases:S', 'cases:N', 'cases:G', 'cases:P', 'cases:U', 'cases:V', 'cases:R', 'cases:D', 'variant:num-instances:reject',
+             'cases:S', 'cases:N', 'cases:G', 'cases:P', 'cases:U', 'cases:V', 'cases:R', 'cases:D', 'cases:X', 'variant:num-instances:reject',
              'variant:num-instances:accept'] +
             [f'clause:{t}:{c}:{d}' for t, c, d in R.required_pairs()] + _NODE_REQ)
 ASSUMPTIONS = ['the pinned tables were transcribed by hand from the repository at the time the check was written; the free-text '
@@ -242,6 +242,27 @@ def d_space():
             props = {rp: PROP_VALUES[rp] for rp in P['required_properties'] if rp != 'site'}
             sv = {'name': 'svc', 'nstype': T, 'via': 'ctor', 'declared': None, 'ifaces': ifaces, 'props': props}
             out.append({'space': 'D', 'flavour': 'experiment', 'nodes': [nd], 'services': [sv]})
+    return out
+
+
+def x_space():
+    """Interfaces of DIFFERENT kinds in one service, for the types that permit only some kinds: every ordered pair of kinds,
+    given to the constructor / connected afterwards (a rule that holds for one interface must hold for each of them)."""
+    out = []
+    for T in TYPES:
+        P = R.PIN_SERVICE[T]
+        if not P.get('required_interface_types'):
+            continue
+        props = {rp: PROP_VALUES[rp] for rp in P['required_properties'] if rp != 'site'}
+        for k1 in KINDS:
+            for k2 in KINDS:
+                if k1 == k2:
+                    continue
+                for via in ('ctor', 'connect'):
+                    n1, i1 = iface_block('xa', SITES[0], k1)
+                    n2, i2 = iface_block('xb', SITES[0], k2)
+                    sv = {'name': 'svc', 'nstype': T, 'via': via, 'declared': None, 'ifaces': [i1, i2], 'props': dict(props)}
+                    out.append({'space': 'X', 'flavour': 'experiment', 'nodes': [n1, n2], 'services': [sv]})
     return out
 
 
@@ -944,6 +965,9 @@ def run(ctx):
     for i, d in enumerate(v_space()):
         if i % nsh == sh:
             run_case(ctx, imp, d, f'V/{i}')
+    for i, d in enumerate(x_space()):
+        if i % nsh == sh:
+            run_case(ctx, imp, d, f'X/{i}')
     # ---- the service product
     if ctx.quick:
         plan, nb = quick_plan(ctx.seed)
